@@ -4,6 +4,7 @@ CONSTANTS
   Calls <- I2
   FixIdle = TRUE
   FixStop = TRUE
+  FixOrder = TRUE
   FixWake = TRUE
   CallTimeouts = FALSE
 PROPERTIES TimedOutReturns WaitingIsServed FetchedReturns
